@@ -15,29 +15,45 @@
      "helper_never_exits"     a helper goroutine outlives the handler (ftp/smtp event pumps)
      "never_eof"              a drained datagram connection never reports end of input: the
                               handler spins instead of returning
-     "listener_never_closed"  a passive-mode listener stays open when nobody connects          *)
+     "listener_never_closed"  a passive-mode listener stays open when nobody connects
+   On a port shared by several services the server itself waits for the client's first bytes
+   (phase "routing": findService peeks for the payload detectors) before a service handles the
+   connection; a peer that is silent or goes away there is subject to the same idle timeout.
+   Model regression only: "peek_without_deadline" - the wait for the first bytes never expires.      *)
 EXTENDS Integers, Sequences, FiniteSets, TLC
 
 CONSTANTS Conns, Deviations, IdleTimeout
 
-VARIABLES procAlive, phase, res, clock, lastInput, panics
-vars == <<procAlive, phase, res, clock, lastInput, panics>>
+VARIABLES procAlive, phase, res,
+          idle,        \* idle[c]: time since connection c last sent something, capped at IdleTimeout
+          quiet,       \* quiet[c]: the client has decided to send nothing more (it stays connected)
+          panics
+vars == <<procAlive, phase, res, idle, quiet, panics>>
 
 Kinds == {"handler", "helper", "listener", "fd"}
 Init == /\ procAlive = TRUE /\ phase = [c \in Conns |-> "idle"] /\ res = [c \in Conns |-> {}]
-        /\ clock = 0 /\ lastInput = [c \in Conns |-> 0] /\ panics = 0
+        /\ idle = [c \in Conns |-> 0] /\ quiet = [c \in Conns |-> FALSE] /\ panics = 0
 
 Open(c) == /\ procAlive /\ phase[c] = "idle"
-           /\ phase' = [phase EXCEPT ![c] = "handling"]
+           /\ \E ph \in {"routing", "handling"} : phase' = [phase EXCEPT ![c] = ph]
            /\ res' = [res EXCEPT ![c] = {"handler", "fd"}]
-           /\ lastInput' = [lastInput EXCEPT ![c] = clock]
-           /\ UNCHANGED <<procAlive, clock, panics>>
+           /\ idle' = [idle EXCEPT ![c] = 0]
+           /\ UNCHANGED <<procAlive, quiet, panics>>
 
 \* the client sends something; the service may acquire helpers for the connection
-Input(c) == /\ procAlive /\ phase[c] = "handling"
-            /\ lastInput' = [lastInput EXCEPT ![c] = clock]
-            /\ \E extra \in SUBSET {"helper", "listener"} : res' = [res EXCEPT ![c] = @ \cup extra]
-            /\ UNCHANGED <<procAlive, phase, clock, panics>>
+GoQuiet(c) == /\ phase[c] \in {"routing", "handling"} /\ ~quiet[c]
+              /\ quiet' = [quiet EXCEPT ![c] = TRUE]
+              /\ UNCHANGED <<procAlive, phase, res, idle, panics>>
+
+Input(c) == /\ procAlive /\ phase[c] \in {"routing", "handling"} /\ ~quiet[c]
+            /\ idle' = [idle EXCEPT ![c] = 0]
+            /\ IF phase[c] = "routing"
+                 THEN \* the first bytes: a service is chosen (or nobody accepts: the connection is closed and released)
+                      \/ phase' = [phase EXCEPT ![c] = "handling"] /\ UNCHANGED res
+                      \/ phase' = [phase EXCEPT ![c] = "returned"] /\ res' = [res EXCEPT ![c] = {}]
+                 ELSE /\ \E extra \in SUBSET {"helper", "listener"} : res' = [res EXCEPT ![c] = @ \cup extra]
+                      /\ UNCHANGED phase
+            /\ UNCHANGED <<procAlive, quiet, panics>>
 
 \* a failure while handling: confined to the connection
 Panic(c) == /\ procAlive /\ phase[c] \in {"handling", "peergone"}
@@ -45,28 +61,32 @@ Panic(c) == /\ procAlive /\ phase[c] \in {"handling", "peergone"}
                  THEN procAlive' = FALSE /\ UNCHANGED <<phase, res, panics>>
                  ELSE /\ phase' = [phase EXCEPT ![c] = "returned"] /\ res' = [res EXCEPT ![c] = {}]
                       /\ panics' = panics + 1 /\ UNCHANGED procAlive
-            /\ UNCHANGED <<clock, lastInput>>
+            /\ UNCHANGED <<idle, quiet>>
 
-PeerGone(c) == /\ phase[c] = "handling"
+PeerGone(c) == /\ phase[c] \in {"routing", "handling"}
                /\ phase' = [phase EXCEPT ![c] = "peergone"]
-               /\ UNCHANGED <<procAlive, res, clock, lastInput, panics>>
+               /\ UNCHANGED <<procAlive, res, idle, quiet, panics>>
 
-Tick == /\ clock' = clock + 1 /\ clock < 3 * IdleTimeout
-        /\ UNCHANGED <<procAlive, phase, res, lastInput, panics>>
+\* time passes for every connection that is waiting for its peer
+Waiting(c) == phase[c] \in {"routing", "handling"}
+Tick == /\ \E c \in Conns : Waiting(c) /\ idle[c] < IdleTimeout
+        /\ idle' = [c \in Conns |-> IF Waiting(c) /\ idle[c] < IdleTimeout THEN idle[c] + 1 ELSE idle[c]]
+        /\ UNCHANGED <<procAlive, phase, res, quiet, panics>>
 
 \* a silent peer is gone once the idle timeout has passed
-IdleExpire(c) == /\ phase[c] = "handling" /\ clock - lastInput[c] >= IdleTimeout
+IdleExpire(c) == /\ phase[c] \in {"routing", "handling"} /\ idle[c] >= IdleTimeout
+                 /\ ~(phase[c] = "routing" /\ "peek_without_deadline" \in Deviations)
                  /\ phase' = [phase EXCEPT ![c] = "peergone"]
-                 /\ UNCHANGED <<procAlive, res, clock, lastInput, panics>>
+                 /\ UNCHANGED <<procAlive, res, idle, quiet, panics>>
 
 Leftovers(c) == (IF "helper_never_exits" \in Deviations THEN res[c] \cap {"helper"} ELSE {})
                 \cup (IF "listener_never_closed" \in Deviations THEN res[c] \cap {"listener"} ELSE {})
 Return(c) == /\ procAlive /\ phase[c] = "peergone" /\ "never_eof" \notin Deviations
              /\ phase' = [phase EXCEPT ![c] = "returned"]
              /\ res' = [res EXCEPT ![c] = Leftovers(c)]
-             /\ UNCHANGED <<procAlive, clock, lastInput, panics>>
+             /\ UNCHANGED <<procAlive, idle, quiet, panics>>
 
-Next == \E c \in Conns : Open(c) \/ Input(c) \/ Panic(c) \/ PeerGone(c) \/ IdleExpire(c) \/ Return(c)
+Next == \E c \in Conns : Open(c) \/ GoQuiet(c) \/ Input(c) \/ Panic(c) \/ PeerGone(c) \/ IdleExpire(c) \/ Return(c)
         \/ Tick
 Fair == \A c \in Conns : WF_vars(Return(c)) /\ WF_vars(IdleExpire(c))
 Spec == Init /\ [][Next]_vars /\ Fair /\ WF_vars(Tick)
@@ -76,5 +96,5 @@ ProcessSurvives == procAlive                                                    
 Quiescent == \A c \in Conns : phase[c] \in {"idle", "returned"}
 ReleasedWhenQuiescent == Quiescent => \A c \in Conns : res[c] = {}                    \* C09
 ReturnsAfterPeerGone == \A c \in Conns : (phase[c] = "peergone") ~> (phase[c] = "returned")   \* C09 (liveness)
-SilentPeersExpire == \A c \in Conns : (phase[c] = "handling") ~> (phase[c] \in {"peergone", "returned"} \/ ~procAlive)
+SilentPeersExpire == \A c \in Conns : (phase[c] \in {"routing", "handling"} /\ quiet[c]) ~> (phase[c] \in {"peergone", "returned"} \/ ~procAlive)
 =============================================================================
